@@ -4,7 +4,7 @@
 # the unedited suite passes with the change, the demo fails with the change.
 PATCH="$(readlink -f "$1")"; DEMO="$(readlink -f "$2")"; FEAT="$3"
 WT=/tmp/confirm_wt_$$
-export CARGO_TARGET_DIR=/tmp/confirm_target
+export CARGO_TARGET_DIR="${CARGO_TARGET_DIR:-/tmp/confirm_target}"
 git -C /repo worktree add --detach "$WT" HEAD -q || exit 3
 cd "$WT" || exit 3
 cp "$DEMO" tests/seed_demo.rs
